@@ -80,7 +80,7 @@ PROPS = {
             (MCI, "_IP0000T1_TABLE_SUB_ID = slice(243, 246)", "_IP0000T1_TABLE_SUB_ID = slice(242, 245)", "index sub id read from the wrong columns", "__init__[1 index"),
         ],
         'assumptions': ["the VBS layer under the parameter reader is replaced by its contract (C03/C05): records of a ghost list of any length, then StopIteration",
-                        "index rows: files whose index has 0, 1 or 2 rows before the trailer are executed (each row symbolic); an arbitrary number of index rows is not mechanised; data rows: any number, by loop invariant with a skolem row for `no row skipped`",
+                        "index: ANY number of records before the trailer by loop invariant over the real `while True` of __init__ (ghost counter / row / position functions defined by recursion over the file; table index = association list of (row[243:246], row[19:27]) of the index rows in file order, every index row entered; well-formed index rows have >= 246 characters), plus concrete 0/1/2-row executions; data rows: any number, by loop invariant with a skolem row for `no row skipped`, over a two-entry index and over an association list of ANY length (dict lookup = last entry with an equal key; its two universally quantified parts are instantiated at the terms the proof needs)",
                         "decode commutes with slicing for single-byte codecs (element-wise decode model); undecodable records are outside the property"],
     },
     'C07': {
@@ -146,7 +146,7 @@ PROPS = {
             (PINB, "if len(values_pass1) < 4:", "if len(values_pass1) < 3:", "second scan skipped with three digits", "calculate_pvv[key=16 hex,pin=4"),
             (PINB, "str(int(value, 16) - 10)", "str(int(value, 16) - 9)", "A-F mapped to 1-6", "calculate_pvv[key=16 hex,pin=4"),
         ],
-        'assumptions': ["cipher model as for C13", "finite split: TSP for all PIN 4..12 x PAN 13..19 (x idx 0..9 for one shape, {0,5,9} otherwise); PVV decimalisation for three shapes x key lengths 8/16/24 bytes with the 16 ciphertext nibbles free (so scans needing 0..4 substituted digits are all covered); key components: 1..4 parts, each 32 symbolic hex digits",
+        'assumptions': ["cipher model as for C13", "finite split: TSP for all PIN 4..12 x PAN 13..19 (x idx 0..9 for one shape, {0,5,9} otherwise); PVV decimalisation for three shapes x key lengths 8/16/24 bytes with the 16 ciphertext nibbles free (so scans needing 0..4 substituted digits are all covered); key components: ANY number by loop invariant over the real for loop (p1 = 32 hex digits of XOR_OF_FIRST(i), defined by recursion; components of 32 hex digits of either case), plus 1..4 parts executed concretely",
                         "order independence for more than adjacent swaps follows from adjacent transpositions generating all permutations (stated, not mechanised)"],
     },
     'C03': {
